@@ -221,6 +221,32 @@ class Check:
             json.dump(ev, f, indent=1, default=str)
 
 
+def part(fn):
+    """Decorator for one self-contained part of a check (first argument: the Check).  An encoder gap or an internal error
+    in one part makes that part inconclusive and lets the other parts of the check run: a violation found elsewhere is
+    still reported (exit 1); with no violation the check exits 2 as before."""
+    import functools
+
+    @functools.wraps(fn)
+    def wrapper(chk, *a, **kw):
+        n0 = len(chk.obligations)
+        try:
+            return fn(chk, *a, **kw)
+        except Inconclusive as e:
+            traceback.print_exc()
+            chk.inconclusive.append('%s.%s: encoder: %s' % (fn.__module__.split('.')[-1], fn.__name__, e))
+        except Exception as e:  # noqa
+            traceback.print_exc()
+            chk.inconclusive.append('%s.%s: internal error: %r' % (fn.__module__.split('.')[-1], fn.__name__, e))
+        # the part was cut short: a solver counterexample it had found but not yet confirmed natively is not reported
+        for ob in chk.obligations[n0:]:
+            if ob.verdict == 'violated' and not getattr(ob, 'replay', None):
+                ob.verdict = 'inconclusive'
+                ob.detail = (ob.detail or '') + ' | the part was cut short before the counterexample was confirmed natively'
+        return None
+    return wrapper
+
+
 def main(prop, body):
     """Run `body(check)`; map exceptions to the inconclusive exit code 2."""
     chk = Check(prop)
